@@ -242,6 +242,10 @@ def _single_case(ctx, kind):
     tr = ["gain", "gain2", "perm", "orth", "time"][(ctx._c08_n + SINGLE.index(kind)) % 5]
     if tr == "orth" and p["ref"] is not None:
         p["ref"] = None
+    if tr in ("gain", "gain2") and rng.random() < 0.3:
+        # the record as raw 24-bit ADC counts in an integer array; the transformed record is the calibrated (float) one
+        y = np.rint(y / np.abs(y).max() * 8_000_000).astype(np.int32)
+        ctx.count("single_integer_counts_record")
     if tr == "perm" and kind in ("SSIcov", "SSIcovR", "SSIdat") and rng.random() < 0.6:
         # a single reference channel, at position 0 before or after the permutation ("reference indices mapped
         # consistently" includes index 0, which is falsy)
